@@ -231,6 +231,7 @@ Proof.
         replace (ds_ts s =? 0) with false by (symmetry; apply N.eqb_neq; now rewrite Hts).
         rewrite Hoffb. rewrite (model_roll _ _ r off Hts Hlo).
         apply negb_true_iff, N.eqb_neq in Hstep.
+        replace (roll r off =? 0) with false by (symmetry; now apply N.eqb_neq).
         pose proof (Inv_time _ _ _ _ _ _ _ _ _ _ _ _ _ _ HI (roll_rel r off Hoff32 Hstep)) as HI1.
         unfold put_st. cbn [bind]. rewrite run_put.
         destruct (get_field (sd_gmn d) c_fieldNumTimeStamp) as [p|] eqn:Eg.
@@ -293,6 +294,7 @@ Proof.
         replace (ds_ts su =? 0) with false by (symmetry; apply N.eqb_neq; now rewrite Hts).
         rewrite Hoffb. rewrite (model_roll _ _ r off Hts Hlo).
         apply negb_true_iff, N.eqb_neq in Hstep.
+        replace (roll r off =? 0) with false by (symmetry; now apply N.eqb_neq).
         pose proof (Inv_time _ _ _ _ _ _ _ _ _ _ _ _ _ _ HIu (roll_rel r off Hoff32 Hstep)) as HI1.
         unfold put_st. cbn [bind]. rewrite run_put.
         rewrite (unknown_no_field _ c_fieldNumTimeStamp Ekn).
